@@ -660,7 +660,9 @@ size_t rtosc_print_arg_val(const rtosc_arg_val_t *arg,
         case 'a':
         {
             char* last_sep = buffer - 1;
-            int args_written_this_line = (*cols_used) ? 1 : 0;
+            // a line break in front of the bracket needs a blank to replace
+            // (not the 'x' of "3x[...]" or the bracket of an enclosing array)
+            int args_written_this_line = (*cols_used && buffer[-1] == ' ') ? 1 : 0;
             STACKALLOC(rtosc_arg_val_t, args_converted, rtosc_arg_arr_len(val)); // range conversion
 
             COUNT_UP_WRITE('[');
